@@ -60,11 +60,13 @@ package cbor
 //@ func cbor.headRoundTrip
 //@   nopaths
 
-// ---- decoder range checks (C11: sound and complete; C12: no panic) ---------
+// ---- decoder range checks (C11: sound and complete; C12: no panic; C20 and C04 rely on
+// them for "an out-of-range wire integer is rejected, not misread": delays, hash and
+// algorithm identifiers) ---------
 
 //@ func cbor.overflows
 //@   params u64 kind
-//@   props C11 C12(sweep)
+//@   props C11 C12(sweep) C20(functional) C04(functional)
 //@   sweep panic
 //@   pure
 //@   requires @kinds isintkind(uint(kind)) || isuintkind(uint(kind))
@@ -72,7 +74,7 @@ package cbor
 
 //@ func cbor.overflowsInt
 //@   params i64 kind
-//@   props C11 C12(sweep)
+//@   props C11 C12(sweep) C20(functional) C04(functional)
 //@   sweep panic
 //@   pure
 //@   requires @kinds isintkind(uint(kind))
@@ -81,7 +83,7 @@ package cbor
 //@ func cbor.Decoder.decodePositive
 //@   params d rv additional
 //@   local kind = Phi#1 | call:reflect.Value.Kind#1 | call:reflect.Value.Kind#2
-//@   props C11 C12(sweep) C10(sweep)
+//@   props C11 C12(sweep) C10(sweep) C20(functional) C04(functional)
 //@   sweep bounds,panic
 //@   requires @len8 len(additional) <= 8
 //@   ensures @sound ? err == nil ==> (isintkind(uint(kind)) || isuintkind(uint(kind))) && tou64(additional) <= umax(uint(kind))
@@ -90,7 +92,7 @@ package cbor
 //@ func cbor.Decoder.decodeNegative
 //@   params d rv additional
 //@   local kind = Phi#1 | call:reflect.Value.Kind#1 | call:reflect.Value.Kind#2
-//@   props C11 C12(sweep) C10(sweep)
+//@   props C11 C12(sweep) C10(sweep) C20(functional) C04(functional)
 //@   sweep bounds,panic
 //@   requires @len8 len(additional) <= 8
 //@   ensures @sound ? err == nil ==> isintkind(uint(kind)) && tou64(additional) <= nmax(uint(kind))
